@@ -564,14 +564,21 @@ TRUSTED_BASE = ["Coq 8.16.1 kernel (coqc); no axioms (Print Assumptions: closed 
                 "correspondence is sampled and at entry-point granularity: agreement is established on the generated configurations only"]
 ASSUMPTIONS = ["GaussianMixture / ParticleSet objects are built through their constructors and augmentWithNoise (descriptor = storage is C11's subject)",
                "user-supplied models return matrices of the shape their descriptions declare (valid class) — other shapes are generated as 'outside' cases"]
-LEVEL_TEXT = ("Proof of a shape calculus: for every configuration (unbounded dimensions, component counts, call counts, operation sequences) the "
-              "shape program of each modelled entry point has all Eigen preconditions satisfied (products conformable, fixed-size assignments "
-              "equal, blocks inside, indices in range, no pop of an empty deque, comma initialisers exact); tied to the code by running the same "
-              "configurations through the library with Eigen assertions on and under ASan/UBSan and comparing verdict, failing entry point and "
-              "observable shapes.")
-LEVEL_NOTE = ("The shape calculus cannot exhibit memory errors that are not index/shape errors: dangling [&] lambda captures after a move "
-              "(GPFCorrection), reads of uninitialised members, aliasing, data-dependent indices other than those the harness pins (argmax "
-              "positions). Those are covered only by the sanitizer run (thorough tier) on the generated call sequences, including moves/copies "
-              "of GPFCorrection, WhiteNoiseAcceleration, Resampling and HistoryBuffer followed by a call; LinearModel, SimulatedLinearSensor and "
-              "LTIMeasurementModel are neither copyable nor movable (checked by the harness), so their [&] capture cannot dangle. The tie is "
-              "sampled and at entry-point granularity.")
+LEVEL_TEXT = ("Proof of a shape calculus: for every configuration (unbounded dimensions, component / particle / call counts, every history-buffer "
+              "operation sequence) the shape program of each modelled entry point — WhiteNoiseAcceleration, LinearModel / SimulatedLinearSensor, "
+              "SimulatedStateModel, HistoryBuffer, InitSurveillanceAreaGrid, augmentWithNoise, sigma_point, the five unscented_transform overloads, "
+              "KF / UKF / SUKF steps and their likelihoods, Resampling(+prior), the density utilities, EstimatesExtraction — has every Eigen "
+              "precondition satisfied (products conformable, fixed-size assignments equal, blocks inside, indices in range, no pop of an empty deque, "
+              "comma initialisers exact) and exhaustion is reported by the return value; the two classes where this is false of the code (UKF / SUKF "
+              "correction of a state containing quaternions) are proved refuted and registered as known findings. Tied to the code by running the "
+              "same configurations through the library with Eigen's assertions on and under ASan/UBSan and comparing verdict, failing entry point and "
+              "observable shapes / return values.")
+LEVEL_NOTE = ("The shape programs are hand transcriptions; their agreement with the code is sampled (exhaustive over the enumerated options, seeded random "
+              "beyond) and at entry-point granularity. The shape calculus cannot exhibit memory errors that are not index/shape errors: dangling "
+              "reference captures after a move, reads of uninitialised members, aliasing, data-dependent indices other than those the harness pins "
+              "(argmax positions). Those are covered only by the sanitizer run of the thorough tier on the generated call sequences, which includes "
+              "move/copy followed by a call for GPFCorrection (use-after-move and uninitialised flag, both repaired in /repo, reintroduction is "
+              "reported), WhiteNoiseAcceleration, Resampling and HistoryBuffer; LinearModel, SimulatedLinearSensor and LTIMeasurementModel are neither "
+              "copyable nor movable (checked on every run), so their reference-capturing sampler cannot dangle. Degenerate configurations are outside "
+              "the validity premises and only checked for agreement of model and code: empty particle sets, prior share 1, sub-measurement size 0, "
+              "grid initialiser on states that are not 4-dimensional, inputs whose shape differs from the declared description.")
